@@ -375,6 +375,9 @@ def w_bposd(cfg, tier):
         if is_css:
             ok_mat = (xd.H != code.Hz).nnz == 0 and (zd.H != code.Hx).nnz == 0
             bad_mat.append(z3_and(p.pc + [z3.BoolVal(not ok_mat)]))
+            if not xd.pushed or not zd.pushed:
+                bad_prior.append(z3_and(p.pc))          # an engine never received its channel probabilities
+                continue
             first_x, first_z = xd.pushed[0], zd.pushed[0]
             bad_prior.append(z3_and(p.pc + [z3_or([a != b for a, b in zip(first_x, mX)] +
                                                   [a != b for a, b in zip(first_z, mZ)] +
